@@ -259,6 +259,13 @@ def run(ctx):
            "each contribution comes from the argument of its trip; arguments 0..n-2 forwards; the result meets argument n-1 (%d)" % n2)
     ctx.ob("R3", "result-wiring", ok3 and n3 > 0, ctx.where(F), why3 or
            "unify(last argument, builder(collected vector), own set) on %d path(s)" % n3)
+    # bindings are read through the resolvers of the substitution-set module (they follow chains), never by indexing
+    fam_bodies = [b for b in prog.lib_bodies() if b.path in family]
+    raw = listwalk.raw_binding_reads(prog, fam_bodies)
+    ctx.ob("R2", "bindings-through-resolvers", not raw, ctx.where(raw[0][0], raw[0][1]) if raw else ctx.where(F),
+           ("%s reads a binding by indexing the substitution set itself (line %d): a variable bound to another variable is "
+            "resolved one step only" % (raw[0][0].npath, raw[0][1])) if raw else
+           "no function of the append family indexes the substitution set; variables are resolved by the module's resolvers")
     # ---- R4 = C15/R1-R2 ------------------------------------------------------------------------------------------------
     c15 = importlib.import_module("rules.C15")
     before = len(ctx.obs)
